@@ -865,6 +865,36 @@ def memo_tables(ctx, fn, ps):
                                            'exactly at the other end: a query inside an interval fixes the entry that a query on its boundary is then handed'
                                            % (s_[1][1], 'right' if left_ else 'left', fmt((incl_ or strict_)[0])[:50]))
                                 break
+                    if verdict is None:
+                        # another: the time of day of an instant says nothing about its date and vice versa.  A key made of dt.time()/hour/minute only, with an entry
+                        # that reads dt.weekday()/date()/day..., files Saturday's answer under the same key as Monday's.
+                        TIME_ = {'time', 'timetz', 'hour', 'minute', 'second', 'microsecond', 'nanosecond'}
+                        DATE_ = {'date', 'weekday', 'isoweekday', 'dayofweek', 'day_of_week', 'day_name', 'year', 'month', 'day', 'dayofyear', 'day_of_year', 'normalize', 'toordinal',
+                                 'week', 'weekofyear', 'quarter', 'is_month_end', 'is_month_start'}
+
+                        def parts_(t_, pv_):
+                            out_ = set()
+                            for s_ in T.subterms(t_):
+                                if s_[0] == 'call' and s_[1][0] == 'meth' and len(s_[2]) == 1 and s_[2][0] == pv_:
+                                    out_.add(s_[1][1])
+                                elif s_[0] == 'attr' and s_[1] == pv_:
+                                    out_.add(s_[2])
+                            return out_
+                        for pn_ in sorted(kparams):
+                            pv_ = V(pn_)
+                            if any(z_ == pv_ for z_ in _injective_atoms(Kw, params)):
+                                continue
+                            kp_ = parts_(Kw, pv_)
+                            # (tests made BEFORE the table is consulted guard hit and miss alike - "not on a weekend" - and are not inputs of the entry)
+                            first_ = next((i_ for i_, (c_, _, _) in enumerate(p.conds) if any(z_ == table for z_ in T.subterms(c_))), len(p.conds))
+                            vp_ = parts_(wv_, pv_) | {x_ for c_, _, _ in p.conds[first_:] if not any(z_ == table for z_ in T.subterms(c_)) for x_ in parts_(c_, pv_)}
+                            bare_ = any(z_ == pv_ for z_ in T.subterms(T.replace(Kw, lambda y_: T.ZERO if (y_[0] == 'call' and y_[1][0] == 'meth' and len(y_[2]) == 1 and y_[2][0] == pv_)
+                                                                                 or (y_[0] == 'attr' and y_[1] == pv_) else None)))
+                            if kp_ and not bare_ and ((kp_ <= TIME_ and vp_ & DATE_) or (kp_ <= DATE_ and vp_ & TIME_ and not (kp_ & {'normalize'}))):
+                                lost_part = sorted((vp_ & DATE_) if kp_ <= TIME_ else (vp_ & TIME_))
+                                verdict = ('unsound', Kw, ['%s.%s' % (pn_, x_) for x_ in lost_part], 'the key holds only the %s of %s (%s), which says nothing about its %s'
+                                           % ('time of day' if kp_ <= TIME_ else 'date', pn_, ', '.join(sorted(kp_)), 'date' if kp_ <= TIME_ else 'time of day'))
+                                break
                     if verdict is not None:
                         break
                     verdict = ('other', 'the key %s is a many-to-one function of %s: that every %s filed under one key gives the same entry is an argument about values, not made here'
@@ -990,6 +1020,19 @@ def discarded_results(ctx, rule, prefixes, what):
     kept_figures(ctx, rule, prefixes, what)
     from .rules.c16 import late_bound_in
     fns = [fn for fn in ctx.M.all_funcs() if fn.parent is None and any(fn.path.startswith(p_) for p_ in prefixes)]
+    # partial(f, arg=Queue()) evaluates Queue() ONCE, when the partial is made: kept as a factory (in a field, a module name) and called for every new object, it hands
+    # each of them the same queue / list / dict
+    MUT_CTORS = {'Queue', 'LifoQueue', 'PriorityQueue', 'SimpleQueue', 'deque', 'list', 'dict', 'set', 'OrderedDict', 'defaultdict', 'Counter', 'bytearray'}
+    for fn in fns:
+        for n_ in ast.walk(fn.node):
+            if isinstance(n_, ast.Assign) and isinstance(n_.value, ast.Call) and ast.unparse(n_.value.func).split('.')[-1] == 'partial' \
+                    and any(isinstance(t_, ast.Attribute) for t_ in n_.targets):
+                bound_ = list(n_.value.args[1:]) + [k_.value for k_ in n_.value.keywords]
+                shared_ = [a_ for a_ in bound_ if isinstance(a_, (ast.List, ast.Dict, ast.Set)) or
+                           (isinstance(a_, ast.Call) and ast.unparse(a_.func).split('.')[-1] in MUT_CTORS and not a_.args and not a_.keywords)]
+                if shared_:
+                    ctx.violation(rule, what, fn.site(n_), 'READ!: `%s` builds %s once, when the partial is made: every object the factory %s creates afterwards is handed that same object'
+                                  % (ast.unparse(n_.value)[:80], ast.unparse(shared_[0])[:30], ast.unparse(n_.targets[0])[:40]), key='%s|shared-argument|%s' % (rule, fn.qn))
     # any(x.step() for x in xs) / all(...) over a GENERATOR stops at the first answer that settles it: where step() changes its object, the objects after that one are
     # never stepped.  (Over a list - any([x.step() for x in xs]) - every step runs before any() looks.)
     from .symex import _writes_self
@@ -1453,8 +1496,11 @@ def _stale_cache_paths(ctx, cls, root, deps, figs, siblings=None):
     for name, m in sorted(cls.methods.items()):
         if name.startswith('_') or '@' in name or m.is_property or m.is_static or ctx.M.ctor_only(m):
             continue
+        fam_ = ctx.M.owner_family(cls.name)
         try:
-            ps = summarise(ctx, m.qn, policy=default_policy, max_paths=600)
+            # (the object's own public steps are part of the step: a fill that re-marks through update_current_price)
+            ps = summarise(ctx, m.qn, policy=lambda a_, b_, d_: default_policy(a_, b_, d_) or (d_ <= 4 and b_.cls is not None and b_.cls.name in fam_ and not b_.name.startswith('__')),
+                           max_paths=600)
         except Undecided:
             continue
         for p in normal(ps):
